@@ -528,6 +528,16 @@ func c07Run(c *core.Ctx) {
 				Want:  [][]string{{"e1=" + v1, "e2=" + v2}, {"e1=" + v2, "e2=" + v1 + odd}}}, fmt.Sprintf("%d|oddvalue", ci)) {
 				return
 			}
+			// the same bytes right after a release character: an escaped rune is that rune, whatever it is
+			if cfg.Rel != "" {
+				e1, e2 := "x"+cfg.Rel+odd+"y", cfg.Rel+odd
+				raw := "S" + cfg.Elem + e1 + cfg.Elem + e2 + cfg.Elem + "z" + cfg.Seg
+				if !try(c07Case{Cfg: cfgb, Input: []byte(raw), Family: "invalid-utf8-in-values|escaped",
+					Decls: []c07Decl{{Name: "e1", Index: 1}, {Name: "e2", Index: 2}, {Name: "e3", Index: 3}},
+					Want:  [][]string{{"e1=x" + odd + "y", "e2=" + odd, "e3=z"}}}, fmt.Sprintf("%d|oddescaped", ci)) {
+					return
+				}
+			}
 			for _, lead := range []string{"", "\n", "\r\n\n"} {
 				in2 := cfg.encode(ediSegment{{{"S"}}, {{"a"}}, {{"b"}}}, cfg.Seg) + lead + odd + cfg.encode(ediSegment{{{"S"}}, {{"c"}}, {{"d"}}}, cfg.Seg) + cfg.encode(ediSegment{{{"S"}}, {{"e"}}, {{"f"}}}, cfg.Seg)
 				if !try(c07Case{Cfg: cfgb, Input: []byte(in2), Family: "undeclared-segment-starting-with-invalid-utf8", Fatal: true,
